@@ -18,6 +18,13 @@ modules are empty or hold one constant and/or such a declaration, so importing t
 M-INJ-LS: every load is repeated under K directory-listing orders (``vf.mon.listing``); the
 canonical JSON (``as_json(full=True, sort_keys=True)``, file paths included) must be identical for
 all orders and for by-name / by-path requests.
+
+By-path requests: the top-level directory (every portion), and up to 4 + 2 paths per tree of module files /
+sub-package directories (top-level single-file module, ``pkg/__init__.py``, ``pkg/sub/mod.py``, members of
+namespace portions, stub-only files, stubs next to sources, nested namespace directories), inside the
+search paths and with their search path removed, spelled as absolute / relative ``Path`` / ``str``; plus one
+path that does not exist.  Expected: the object at the dotted name CPython imports from that file, and
+the same tree as the by-name load.
 """
 from __future__ import annotations
 
@@ -57,7 +64,8 @@ LEVEL_TEXT = ("Each generated tree is written to disk once; CPython (fresh child
               "entries in quick, <=4 in thorough), by dotted name and by directory path. Judged: every loaded module "
               "against CPython's spec (origin file, package / namespace / module kind, the five classification "
               "properties), every walker result against the loaded tree, byte-identical canonical JSON across orders "
-              "and request styles.")
+              "and request styles; module-file / sub-directory paths (4 inside + 2 outside the search paths per tree, "
+              "four spellings) must give the object at the dotted name CPython imports from that file and the by-name tree.")
 LEVEL_NOTE = ("trusted: CPython 3.12 importlib/pkgutil/site as reference; compiled-extension files are fakes, so for them "
               "'loaded' is observed as 'the loader was handed that file at that dotted name' (wrapper on "
               "GriffeLoader._load_module_path) with inspection disabled; os.walk lists a directory's files before its "
@@ -70,7 +78,9 @@ REQUIRED_COUNTERS = ["trees_judged", "loaded_modules_checked_against_find_spec",
                      "stub_only_modules_checked", "pth_trees_judged", "file_spells_name_checked",
                      "by_path_outside_search_paths_compared", "legacy_namespace_packages_checked",
                      "legacy_namespace_multi_portion_checked", "walker_modules_in_later_portion_checked",
-                     "walker_modules_in_later_legacy_portion_checked"]
+                     "walker_modules_in_later_legacy_portion_checked", "by_file_path_requests", "by_file_path_trees_compared",
+                     "by_file_path_toplevel_module_file", "by_file_path_submodule_file", "by_file_path_stub_only_file",
+                     "by_file_path_in_namespace_package", "by_file_path_outside_search_paths", "by_file_path_missing_checked"]
 EXHAUSTIVE = {"quick": False, "thorough": False}
 ASSUMPTIONS = ["legacy namespace packages: the reference child has no pkg_resources, so every generated declaration reaches "
                "pkgutil.extend_path (directly or in the except-ImportError branch); bare pkg_resources declarations and "
@@ -84,8 +94,17 @@ ASSUMPTIONS = ["legacy namespace packages: the reference child has no pkg_resour
                "dotted name is present and the result is order-independent",
                ".pth files: only absolute directory lines, comments and blank lines, placed in search paths; every search "
                "path is treated as a site directory (site.addsitedir) by the reference",
-               "'requested by path' means the path of the package's top-level *directory* (named like the package); module "
-               "files and <name>-stubs directories given as path are outside the statement",
+               "'requested by path': the top-level directory, and (widening the statement's wording to what load() documents: 'file "
+               "path to a module') the file of any module / the directory of any sub-package or nested namespace package that "
+               "names ONE module unambiguously: CPython imports that dotted name from that very file (or it is a stub-only "
+               "module / the stub next to such a file); the request is spelled as absolute or relative Path or str. Expected: "
+               "the object at that dotted path and the same tree as the by-name load; a path that does not exist: "
+               "FileNotFoundError (Path) / ModuleNotFoundError (str) as documented. <name>-stubs directories and dotted file "
+               "names given as path are outside the statement",
+               "a file outside every search path: its top-level package is the topmost directory of the unbroken chain of "
+               "__init__.py directories above it (the parent of that directory acts as search path, CPython's own script / "
+               "pytest rootdir convention); a file in a directory without __init__.py is its own top-level module. Checked "
+               "against load(name) with that directory put first on the search paths (and CPython's spec there)",
                "a stub-only module is accepted where CPython has no source module of that name (or only a module the "
                "package walker does not reach); nested namespace packages: Griffe's portions must be among CPython's",
                "as_json(full=True) is taken with the tree's parent as working directory, and falls back to the base dump "
@@ -547,6 +566,10 @@ def observe(case: dict, root: str, k: int, request, search: list[str] | None = N
                 obs["outcome"] = "ModuleNotFoundError"
                 obs["detail"] = str(exc)[:200]
                 return obs
+            except FileNotFoundError as exc:      # documented by ModuleFinder.find_spec for a path that does not exist
+                obs["outcome"] = "FileNotFoundError"
+                obs["detail"] = str(exc)[:200]
+                return obs
             except KeyError as exc:
                 obs["outcome"] = f"KeyError: {exc}"
                 obs["detail"] = "".join(traceback.format_exception(type(exc), exc, exc.__traceback__))[-1500:]
@@ -565,6 +588,14 @@ def observe(case: dict, root: str, k: int, request, search: list[str] | None = N
                 raise
             obs["json_full"] = False
             obs["json"] = mod.as_json(full=False, sort_keys=True)
+        if getattr(mod, "parent", None) is not None:
+            # a module below the top level was requested: the tree it belongs to is part of the observation
+            try:
+                obs["package_json"] = mod.package.as_json(full=obs.get("json_full", True), sort_keys=True)
+            except ValueError as exc:
+                if "is not in the subpath of" not in str(exc):
+                    raise
+                obs["package_json"] = mod.package.as_json(full=False, sort_keys=True)
         stack = [mod]
         while stack:
             m = stack.pop()
@@ -611,13 +642,16 @@ def describe_diff(obs_a: dict, obs_b: dict) -> dict:
     if obs_a["outcome"] != obs_b["outcome"]:
         return {"at": "outcome", "a": obs_a["outcome"], "b": obs_b["outcome"]}
     d = _first_diff(json.loads(obs_a["json"]), json.loads(obs_b["json"]))
+    if not d and obs_a.get("package_json") != obs_b.get("package_json"):
+        d = _first_diff(json.loads(obs_a.get("package_json") or "null"), json.loads(obs_b.get("package_json") or "null"), "$package")
     if not d:
         return {"at": "?", "a": None, "b": None}
     return {"at": d[0], "a": json.dumps(d[1], sort_keys=True)[:300], "b": json.dumps(d[2], sort_keys=True)[:300]}
 
 
 def same(obs_a: dict, obs_b: dict) -> bool:
-    return obs_a["outcome"] == obs_b["outcome"] and obs_a["json"] == obs_b["json"]
+    return obs_a["outcome"] == obs_b["outcome"] and obs_a["json"] == obs_b["json"] \
+        and obs_a.get("package_json") == obs_b.get("package_json")
 
 
 # ------------------------------------------------------------------------------------------
@@ -798,7 +832,8 @@ def judge_against_cpython(case: dict, root: str, ref: dict, obs: dict, rec) -> l
 # mechanism classifiers (predicates over tree structure + observation; see known_findings.d/C14.json)
 INLINE_DECLARATION = re.compile(r"__path__ = __import__\([\"']pkgutil[\"']\)\.extend_path\(__path__, __name__\)|"
                                 r"__import__\([\"']pkg_resources[\"']\)\.declare_namespace\(__name__\)")
-FINDINGS = ["C14-legacy-namespace-loses-to-later-package", "C14-legacy-namespace-portion-order",
+FINDINGS = ["C14-by-path-object-path-is-bare-name", "C14-by-path-file-in-non-package-directory-named-after-it",
+            "C14-legacy-namespace-loses-to-later-package", "C14-legacy-namespace-portion-order",
             "C14-extend-path-declaration-not-recognised", "C14-nested-legacy-namespace-not-merged",
             "C14-mentioned-declaration-taken-as-namespace",
             "C14-pth-listing-order", "C14-file-taken-as-namespace-portion", "C14-namespace-duplicate-last-portion-wins",
@@ -1111,6 +1146,128 @@ def classify_order_dependence(case: dict, root: str, request, base: dict, other:
 
 
 # ------------------------------------------------------------------------------------------
+# requests by the path of a module's FILE (or of a directory below the top level)
+REQUEST_STYLES = ["absolute-Path", "relative-Path", "absolute-str", "relative-str"]
+MAX_FILE_REQUESTS = 4
+
+
+def file_request_candidates(case: dict, ref: dict, obs: dict, problems: list[Problem]) -> list[dict]:
+    """Paths that name one module unambiguously: Griffe's by-name tree has module N from file F, CPython imports N from F
+    (or N is a stub-only module CPython does not know), and nothing was found wrong at N or above it.  Also the
+    directories of sub-packages and of nested namespace packages."""
+    bad = {p.name for p in problems if p.name}
+    specs = ref["specs"]
+    mods = obs["modules"]
+    top_is_namespace = isinstance(mods[obs["top"]]["file"], list)
+    out: list[dict] = []
+
+    def add(cat: str, name: str, path: str) -> None:
+        out.append({"cat": cat, "name": name, "path": path, "in_namespace": top_is_namespace})
+
+    for name in sorted(mods):
+        chain = [name.rsplit(".", i)[0] for i in range(name.count(".") + 1)]
+        if any(a in bad or ref_kind(specs.get(a)) == "compiled" for a in chain):
+            continue
+        f = mods[name]["file"]
+        desc = specs.get(name) or {}
+        nested = "." in name
+        if isinstance(f, list):
+            if nested and ref_kind(desc) == "namespace" and {_rp(x) for x in f} == set(desc["locations"]):
+                for d in f:
+                    add("namespace-directory", name, d)
+            continue
+        if (TOP + "-stubs") in f.split(os.sep) or os.path.basename(f).count(".") != 1:
+            continue            # <name>-stubs packages and dotted file names are outside the statement
+        is_init = os.path.basename(f).startswith("__init__.")
+        if f.endswith(".pyi"):
+            if ref_kind(desc) != "absent":
+                continue
+            add("stub-only-file", name, f)
+            continue
+        if _rp(desc.get("origin")) != _rp(f):
+            continue
+        if is_init:
+            add("subpackage-init-file" if nested else "toplevel-init-file", name, f)
+            if nested:
+                add("subpackage-directory", name, os.path.dirname(f))
+        else:
+            add("submodule-file" if nested else "toplevel-module-file", name, f)
+        if os.path.exists(f + "i"):
+            add("stub-sibling-file", name, f + "i")
+    return out
+
+
+def pick_file_requests(case: dict, candidates: list[dict], limit: int = MAX_FILE_REQUESTS) -> list[dict]:
+    rng = random.Random(case.get("perm_seed", 0) ^ 0x5EED)
+    by_cat: dict[str, list[dict]] = {}
+    for c in candidates:
+        by_cat.setdefault(c["cat"], []).append(c)
+    cats = sorted(by_cat)
+    rng.shuffle(cats)
+    picked = []
+    for cat in cats[:limit]:
+        c = dict(rng.choice(by_cat[cat]))
+        c["style"] = rng.choice(REQUEST_STYLES)
+        picked.append(c)
+    return picked
+
+
+def spell_request(path: str, style: str):  # noqa: ANN201
+    """The request object for ``path`` (relative styles: relative to the working directory, the parent of the tree)."""
+    text = os.path.relpath(path, os.getcwd()) if style.startswith("relative") else path
+    return Path(text) if style.endswith("Path") else text
+
+
+def judge_file_request(case: dict, root: str, req: dict, rec, search: list[str] | None = None,  # noqa: ANN001
+                       name_search: list[str] | None = None) -> Problem | None:
+    """load(<path of the file of module N>) gives the object N and the same tree as load('N')."""
+    where = os.path.relpath(req["path"], root)
+    bp = observe(case, root, 0, spell_request(req["path"], req["style"]), search)
+    rec.count("by_file_path_requests")
+    rec.count("by_file_path_" + req["cat"].replace("-", "_"))
+    rec.count("by_file_path_style_" + req["style"].replace("-", "_"))
+    if req.get("in_namespace"):
+        rec.count("by_file_path_in_namespace_package")
+    pr = None
+    if bp["outcome"] != "ok":
+        pr = Problem("by-file-path", req["name"], f"load({req['style']} of {where!r}) raised {bp['outcome']}; it is the "
+                     f"{req['cat']} of module {req['name']}", bp["outcome"], f"the module {req['name']}")
+    elif bp["top"] != req["name"]:
+        pr = Problem("by-file-path", req["name"], f"load({req['style']} of {where!r}) returned the object {bp['top']!r}",
+                     bp["top"], req["name"])
+    else:
+        bn = observe(case, root, 0, req["name"], name_search or search)
+        rec.count("by_file_path_trees_compared")
+        if not same(bn, bp):
+            pr = Problem("by-file-path", req["name"], f"load({req['style']} of {where!r}) differs from load({req['name']!r})",
+                         describe_diff(bn, bp), "identical canonical JSON of the module and of its package")
+    if pr is not None:
+        pr.finding = classify_file_request(req, bp)
+    return pr
+
+
+def classify_file_request(req: dict, bp: dict) -> str | None:
+    """Mechanisms of a failed by-file-path request, read from what the loader was handed (load attempts)."""
+    name, path = req["name"], _rp(req["path"])
+    last = name.rsplit(".", 1)[-1]
+    loaded = {(n, _rp(f)) for n, f, o in bp.get("attempts", []) if o == "loaded"}
+    if bp["outcome"] != f"KeyError: '{last}'":
+        return None
+    is_dir = os.path.isdir(path)
+    if "." in name:
+        # C14-by-path-object-path-is-bare-name: the package was loaded and holds the module at its dotted path, but the object
+        # looked up afterwards is the bare last component of that path
+        # (a directory may hold nothing loadable itself: then the sign is that its top-level package was handed to the loader)
+        hit = any(n == name and (f == path or (is_dir and os.path.dirname(f) == path)) for n, f in loaded) or \
+            (is_dir and any(n == top_of(name) or n.startswith(top_of(name) + ".") for n, _f, _o in bp.get("attempts", [])))
+        return "C14-by-path-object-path-is-bare-name" if hit else None
+    # C14-by-path-file-in-non-package-directory-named-after-it: the module's own file was loaded, as <directory name>.<module>
+    if not is_dir and (os.path.basename(os.path.dirname(path)) + "." + name, path) in loaded:
+        return "C14-by-path-file-in-non-package-directory-named-after-it"
+    return None
+
+
+# ------------------------------------------------------------------------------------------
 def run_case(rec, case: dict) -> None:  # noqa: ANN001, C901, PLR0912, PLR0915
     root = os.path.realpath(tempfile.mkdtemp(prefix="vf14-"))
     nt = nontrivial(case)
@@ -1180,6 +1337,46 @@ def run_case(rec, case: dict) -> None:  # noqa: ANN001, C901, PLR0912, PLR0915
                             problems.append(Problem("by-path", None, f"load(Path('{s}/{TOP}'), search_paths={others}) differs from "
                                                     f"load('{TOP}', search_paths={[s] + others})", describe_diff(ref_order, bp),
                                                     "the requested directory is the package"))
+                    # ---- requests by the path of a module's file / of a directory below the top level -------------------
+                    for req in pick_file_requests(case, file_request_candidates(case, ref, base, problems)):
+                        pr = judge_file_request(case, root, req, rec)
+                        if pr is not None:
+                            problems.append(pr)
+                    # ---- ... of a file outside every search path: below a regular package (its topmost __init__ directory
+                    # is the top-level package), or in a directory that is no package (the file is its own top-level module)
+                    if len(case["search"]) >= 2 and not has_pth(case):
+                        rng = random.Random(case.get("perm_seed", 0) ^ 0xF11E)
+                        holders = [x for x in case["search"] if f"{x}/{TOP}/__init__.py" in case["files"] or f"{x}/{TOP}.py" in case["files"]]
+                        if holders:
+                            s = rng.choice(holders)
+                            others = [x for x in case["search"] if x != s]
+                            inside = observe(case, root, 0, case["request"], search=[s] + others)
+                            ref_s = reference(case, root, [s] + others)
+                            if inside["outcome"] == "ok" and _under(ref_s["specs"][TOP].get("origin"), os.path.join(root, s)) \
+                                    and ref_kind(ref_s["specs"][TOP]) in ("package", "module") and not ref_s["specs"][TOP].get("extended"):
+                                # (only below an unbroken chain of regular packages: a directory without __init__.py on the
+                                # way ends the chain, and what lies above it cannot be known from the path alone)
+                                cands = [c for c in file_request_candidates(case, ref_s, inside, [])
+                                         if _under(c["path"], os.path.join(root, s))
+                                         and all(ref_kind(ref_s["specs"].get(c["name"].rsplit(".", i)[0])) == "package"
+                                                 for i in range(1, c["name"].count(".") + 1))]
+                                for req in pick_file_requests(case, cands, 2):
+                                    req["cat"] = "outside-" + req["cat"]
+                                    pr = judge_file_request(case, root, req, rec, search=others, name_search=[s] + others)
+                                    rec.count("by_file_path_outside_search_paths")
+                                    if pr is not None:
+                                        problems.append(pr)
+                    # ---- a path that does not exist: the documented exceptions -----------------------------------------------
+                    style = REQUEST_STYLES[case.get("perm_seed", 0) % len(REQUEST_STYLES)]
+                    missing = observe(case, root, 0, spell_request(os.path.join(root, case["search"][0], "nowhere", "absent.py"), style))
+                    rec.count("by_file_path_missing_checked")
+                    want = "FileNotFoundError" if style.endswith("Path") else "ModuleNotFoundError"
+                    if missing["outcome"] != want:
+                        problems.append(Problem("by-file-path", None, f"load({style} of a file that does not exist) gave "
+                                                f"{missing['outcome']}", missing["outcome"], want))
+            except ReferenceDied as exc:
+                rec.inconclusive(case, str(exc))
+                return
             except Exception as exc:  # noqa: BLE001
                 rec.fail_exc(case, "exception while loading / serialising a generated tree", exc, nontrivial=nt)
                 return
